@@ -1,5 +1,5 @@
 struct S { int a; char b[3]; double d; unsigned bf : 3; }; union U { int i; float f; }; enum E { E0, E1 = 5 };
 int gi; unsigned gu; long gl; double gd; float gf; char gc; _Bool gb; int *gp; char *gs; void *gv; struct S gS; union U gU; enum E ge; int ga[4]; int gf0(void); int gf2(int, double); int gfv(int, ...); int gfz(...); void gvoid(void); _Noreturn void gdie(int); int (*gfp)(void);
 
-inline int f0(struct S s) { (gfv(1, 2, 3.0) ? (gi || (gdie(2), 0)) : gf0()); long v3 = gfz(gi); goto L0; { extern int a; { extern long a; } } do goto L2; while (-1); }
-extern int f0(struct S s);
+_Noreturn unsigned long f0(int a) { { if (gS.d) goto L0; else {  } } }
+inline unsigned long f0(int a);
